@@ -62,7 +62,7 @@ func init() {
 			"GoLevelDB runs on real files in a scratch directory and is only restarted cleanly",
 		},
 		Components: map[string]string{"tree/nodedb/batch/cache/iterators": "real", "storage": "SimDB (stub of the disk); real MemDB/GoLevelDB/PrefixDB in the backend dimension", "oracle": "R1 versioned map"},
-		QuickRuns:  2400,
+		QuickRuns:  1600,
 		ThoroughS:  480,
 		Gen: func(seed uint64, run int, tier string) *drv.Plan {
 			r := sim.Sub(seed, "C01", run)
